@@ -81,7 +81,7 @@ template<class V> struct Plan<V, 8> {
 template<class V> struct Plan<V, 16> {
     typedef typename V::scalar S;
     static void run(const std::vector<S>& K) {
-        if (opt().thorough) run_ops<V>(erase<S>(DomFull2<S>()), erase<S>(DomFull1<S>()), K);
+        if (exh16()) run_ops<V>(erase<S>(DomFull2<S>()), erase<S>(DomFull1<S>()), K);
         else run_ops<V>(erase<S>(DomCross2<S>(as_scalars<S>(alphabet_L(16, false)), "D16 x L16 union L16 x D16")), erase<S>(DomFull1<S>()), K);
     }
 };
